@@ -127,6 +127,21 @@ def _vec_push(m, args, raw):
     return UNIT
 
 
+@model("Vec::clear")
+def _vec_clear(m, args, raw):
+    del deref(args[0]).items[:]
+    return UNIT
+
+
+@model("Vec::truncate")
+def _vec_truncate(m, args, raw):
+    n = args[1]
+    if not isinstance(n, int):
+        raise Unsupported("Vec::truncate with a symbolic length")
+    del deref(args[0]).items[n:]
+    return UNIT
+
+
 @model("Vec::pop")
 def _vec_pop(m, args, raw):
     v = deref(args[0])
@@ -162,7 +177,7 @@ def _first(m, args, raw):
     return Some(Ptr(items, a)) if b > a else NONE()
 
 
-@model("slice::iter", "^<&Vec<.*> as IntoIterator>::into_iter$", "^<&\\[.*\\] as IntoIterator>::into_iter$")
+@model("slice::iter", "slice::iter_mut", "^<&(mut )?Vec<.*> as IntoIterator>::into_iter$", "^<&(mut )?\\[.*\\] as IntoIterator>::into_iter$")
 def _iter(m, args, raw):
     items, a, b = as_list(args[0])
     return Struct("SliceIter", [items, a, b])
@@ -174,7 +189,7 @@ def _into_iter(m, args, raw):
     return Struct("VecIntoIter", [list(v.items), 0, len(v.items)])
 
 
-@model("<Iter as Iterator>::next")
+@model("<Iter as Iterator>::next", "<IterMut as Iterator>::next")
 def _iter_next(m, args, raw):
     it = deref(args[0])
     items, pos, end = it.fields
@@ -673,3 +688,89 @@ def _is_x_and(m, args, raw):
         raise Unsupported("closure of " + raw[:60])
     r = m.run(fn, [args[1], v.fields[0]])
     return r if isinstance(r, bool) else m.decide(r)
+
+
+# ----------------------------------------------------------------------------------------------- Option / Result combinators taking a closure or a function item
+# (several modules register their own, narrower versions of some of these at run time; those take precedence - these fill the gaps)
+def _apply_fn_arg(m, raw, env, extra):
+    """the F of a combinator: a closure of the crate ({closure@file:line:col}, run from MIR with its environment) or a function item ({path})"""
+    mc = re.search(r"\{closure@[^}]*\}", raw)
+    if mc:
+        fn = m.index.get(mc.group(0))
+        if fn is None:
+            raise Unsupported("closure of " + raw[:60])
+        return m.run(fn, [env] + list(extra))
+    mf = re.search(r"\{([^{}]+)\}>$", raw)
+    if mf:
+        return m.call(mf.group(1), list(extra))
+    raise Unsupported("function argument of " + raw[:60])
+
+
+@model("Option::map", "Result::map", "Result::map_err")
+def _x_map(m, args, raw):
+    v = args[0]
+    hit = "Err" if normalize_tail(raw) == "map_err" else ("Ok" if v.ty == "Result" else "Some")
+    if v.variant != hit:
+        return v
+    return Enum(v.ty, v.variant, [_apply_fn_arg(m, raw, args[1], [v.fields[0]])])
+
+
+@model("Option::and_then", "Result::and_then")
+def _x_and_then(m, args, raw):
+    v = args[0]
+    if v.variant not in ("Some", "Ok"):
+        return v
+    return _apply_fn_arg(m, raw, args[1], [v.fields[0]])
+
+
+@model("Option::unwrap_or_else", "Result::unwrap_or_else")
+def _x_unwrap_or_else(m, args, raw):
+    v = args[0]
+    if v.variant in ("Some", "Ok"):
+        return v.fields[0]
+    return _apply_fn_arg(m, raw, args[1], [v.fields[0]] if v.variant == "Err" else [])
+
+
+@model("Option::map_or")
+def _opt_map_or(m, args, raw):
+    v = args[0]
+    if v.variant != "Some":
+        return args[1]
+    return _apply_fn_arg(m, raw, args[2], [v.fields[0]])
+
+
+@model("Option::filter")
+def _opt_filter(m, args, raw):
+    v = args[0]
+    if v.variant != "Some":
+        return v
+    cell = [v.fields[0]]
+    r = _apply_fn_arg(m, raw, args[1], [Ptr(cell, 0)])
+    r = r if isinstance(r, bool) else m.decide(r)
+    return v if r else NONE()
+
+
+@model("^<Option<(bool|char|u8|u16|u32|u64|usize|i8|i16|i32|i64|isize)> as PartialEq>::(eq|ne)$")
+def _opt_prim_eq(m, args, raw):
+    a, b = deref(args[0]), deref(args[1])
+    if a.variant != b.variant:
+        r = False
+    elif a.variant == "None":
+        r = True
+    else:
+        x, y = a.fields[0], b.fields[0]
+        if isinstance(x, (bool, int)) and isinstance(y, (bool, int)):
+            r = x == y
+        else:
+            r = m.decide(x == y)
+    return (not r) if raw.rstrip(">").endswith("ne") or normalize_tail(raw) == "ne" else r
+
+
+@model("^<(u8|u16|u32|u64|usize|i8|i16|i32|i64|isize) as Ord>::(min|max)$", "cmp::min", "cmp::max")
+def _int_min_max(m, args, raw):
+    a, b = args[0], args[1]
+    which = normalize_tail(raw)
+    if isinstance(a, int) and isinstance(b, int):
+        return min(a, b) if which == "min" else max(a, b)
+    le = m.decide(a <= b)
+    return (a if le else b) if which == "min" else (b if le else a)
